@@ -90,6 +90,23 @@ def run_rev3(ctx, p):
         dP = md((T @ np.r_[off, 1.0])[:3], (want @ np.r_[off, 1.0])[:3])
         ctx.judge('motion', dP <= TOL * scp, dict(sig, kind='offaxis_point_wrong', units=units),
                   lambda: 'Revolute(%s, %s).exp(%r): image of %s differs from the screw motion by %.3g' % (a, q, th, off, dP))
+    # the same motion from the matrix / vector form of the unit twist handed to the base exponential with an explicit, signed theta
+    import spatialmath.base as base
+    for th in ths[:2]:
+        want = screw_ref(a, q, th)
+        for fname, f in (('trexp(S.se3(), theta)', lambda: base.trexp(tw.se3(), th)), ('trexp(S.S, theta)', lambda: base.trexp(tw.S, th)),
+                         ('trexp(S.inv().S, -theta)', lambda: base.trexp(tw.inv().S, -th))):
+            try:
+                T = np.asarray(f(), dtype=np.float64)
+            except Exception as e:
+                ctx.bad('motion', dict(sig, kind='raised', exc=type(e).__name__, route=fname.split('(')[1][:8]), '%s raised %r for Revolute(%s, %s), theta=%r' % (fname, e, a, q, th))
+                continue
+            pt = q + lam[1] * au
+            scp = max(sc, float(np.max(np.abs(pt))), float(np.max(np.abs(off))))
+            moved = md((T @ np.r_[pt, 1.0])[:3], pt)
+            dP = md((T @ np.r_[off, 1.0])[:3], (want @ np.r_[off, 1.0])[:3])
+            ctx.judge('motion', moved <= TOL * scp and dP <= TOL * scp, dict(sig, kind='base_two_argument_form_wrong', neg=bool(th < 0)),
+                      lambda: '%s for Revolute(%s, %s), theta=%r: axis point moves by %.3g, off-axis image off by %.3g (allowed %.3g)' % (fname, a, q, th, moved, dP, TOL * scp))
     accessors3(ctx, tw, a, q, sc, prismatic=False)
     consistency(ctx, tw, 3, ths[0], sc)
     ctx.cell('rev3', units, 'vec' if len(ths) > 1 else 'scalar', core.band(np.linalg.norm(a)))
@@ -267,7 +284,32 @@ def run_multi3(ctx, p):
     ctx.nontrivial('multi3', kinds, [float('%.9g' % x) for a in axes for x in a], k)
 
 
-RUNNERS = {'multi3': run_multi3, 'rev3': run_rev3, 'pris3': run_pris3, '2d': run_2d}
+def run_zero(ctx, p):
+    """exp(0 S) is the null motion for every S -- also after the caller has written into the array of an earlier zero-motion
+    result (results belong to the caller; the library must not hand out one shared array)"""
+    sm = S()
+    dim = p['dim']
+    sig = dict(api='Twist%d.exp' % dim, theta='0')
+    a1, a2 = np.asarray(p['S1'], dtype=np.float64), np.asarray(p['S2'], dtype=np.float64)
+    C = sm.Twist3 if dim == 3 else sm.Twist2
+    I = np.eye(dim + 1)
+    try:
+        first = [C(a1).exp(0), C(a1).exp([0.0, 0.3]), (C(a1) * 0).exp(), C(a1).exp(0, 'deg')]
+        for X in first:
+            X.data[0][:dim, dim] += 7.0        # the caller edits its own result in place
+        later = [('S2.exp(0)', C(a2).exp(0)), ('S2.exp([0.5, 0])[1]', C(a2).exp([0.5, 0.0])[1]), ('(S2*0).exp()', (C(a2) * 0).exp()), ('S1.exp(0) again', C(a1).exp(0)),
+                 ('S2.inv().exp(0)', C(a2).inv().exp(0))]
+    except Exception as e:
+        ctx.bad('motion', dict(sig, kind='raised', exc=type(e).__name__, where=_where(e)), 'zero-motion exponentials raised %r' % e)
+        return
+    for name, X in later:
+        d = md(X.data[0], I)
+        ctx.judge('motion', d <= 1e-12, dict(sig, kind='zero_motion_not_identity'), lambda: '%s = %s is not the null motion' % (name, core.short(X.data[0], 200)))
+    ctx.cell('zero', dim)
+    ctx.nontrivial('zero', dim, [float('%.9g' % v) for v in np.r_[a1, a2]])
+
+
+RUNNERS = {'zero': run_zero, 'multi3': run_multi3, 'rev3': run_rev3, 'pris3': run_pris3, '2d': run_2d}
 
 
 def REACH():
@@ -297,6 +339,10 @@ def run(ctx):
         k = [2, 3, -1, -2][rng.integers(4)] if rng.random() < 0.4 else float(thetas(rng))
         drive(RUNNERS, ctx, 'multi3', dict(kinds=['R' if rng.random() < 0.75 else 'P' for _ in range(n)], axes=[gen.axis(rng) for _ in range(n)],
                                             pts=[gen.vec(rng, 3, 1e-3, 1e3) for _ in range(n)], k=k, thetas=[float(thetas(rng)) for _ in range(n)]))
+    for _ in range(ctx.scale(150, 2500)):
+        dim = int(rng.integers(2, 4))
+        n = 6 if dim == 3 else 3
+        drive(RUNNERS, ctx, 'zero', dict(dim=dim, S1=gen.vec(rng, n, 1e-2, 1e2), S2=gen.vec(rng, n, 1e-2, 1e2)))
     for _ in range(ctx.scale(500, 10000)):
         nv = 1 if rng.random() < 0.7 else int(rng.integers(2, 5))
         drive(RUNNERS, ctx, 'pris3', dict(a=gen.axis(rng), thetas=[thetas(rng) for _ in range(nv)]))
